@@ -194,7 +194,28 @@ func c07GenSentLines(g *Gen, cfs ...*c07Conf) {
 				}
 			}
 		}
-		// 3. random header lines: any PRI of 1-3 digits (also out of range: malformed, but a record of its own),
+		// 3. every PRI value (and leading zeros) as the header of a line of its own, with a full and with a NIL timestamp
+		if g.Thorough() || ci == len(cfs)-1 {
+			var all [][]byte
+			for p := 0; p <= 200; p++ {
+				ts := "2022-08-15T12:15:00Z"
+				if p%4 == 3 {
+					ts = "-"
+				}
+				all = append(all, c07HeaderLine(fmt.Sprint(p), ts))
+			}
+			for _, p := range []string{"00", "000", "007", "099", "300", "999"} {
+				all = append(all, c07HeaderLine(p, "-"), c07HeaderLine(p, "2022-08-15T12:15:00Z"))
+			}
+			for i := 0; i < len(all); i += 30 {
+				j := i + 30
+				if j > len(all) {
+					j = len(all)
+				}
+				emit("sent-every-pri", append(append([][]byte{sentinel()}, all[i:j]...), sentinel()), 2*(i/30)%3)
+			}
+		}
+		// 4. random header lines: any PRI of 1-3 digits (also out of range: malformed, but a record of its own),
 		// random bytes after the header
 		nr := g.Pick(12, 300)
 		for i := 0; i < nr; i++ {
